@@ -568,6 +568,14 @@ class Ownership:
             self.add("C04", "R03.3", "%s:store-add" % key, ok, f.loc(w),
                      "a path through %s links %s to the owner without putting it in the "
                      "collection's store: %s" % (key, elem, _p(cfg, wit)), 2)
+            # the element enters the store after it has left its previous owner: the previous
+            # owner may be this very collection (a member added again), and then the removal
+            # would take out what was just put in
+            early = [h for h in hits if any(p_ in cfg.reachable(h) and p_ != h for p_ in prev)]
+            self.add("C04", "R03.3", "%s:store-after-leaving" % key, not early, f.loc(w),
+                     "%s puts %s into the store before removing it from its previous owner: when that "
+                     "owner is this collection itself the removal takes the element out again while its "
+                     "back-pointer is set" % (key, elem), 2)
 
     def _detach(self, rel: Relation, f: FuncInfo, w: ast.Assign, group: Optional[List[ast.Assign]] = None) -> None:
         self.functions.add(f.qualname)
